@@ -251,7 +251,7 @@ pub fn run(ctx: &Ctx) {
             let led0 = ip::ledger_snapshot();
             let mut inj = ip::lib(InjectorPP::new);
             ip::lib(|| install(&mut inj, t, kind, 0, 0));
-            let changed = img(t.addr) != w.images[i];
+            let changed = img_differs(t.addr, &w.images[i]);
             if let Some(s0) = &snap0 {
                 // C03 on a single install: every changed byte lies in the named function's 16-byte slot
                 let s1 = maps::snapshot();
@@ -281,7 +281,7 @@ pub fn run(ctx: &Ctx) {
                 // that watch this target are then unfounded => the warm-up case is inconclusive.
                 unpatched.push(t.name.clone());
             }
-            if img(t.addr) != w.images[i] || (t.call)() != t.orig {
+            if img_differs(t.addr, &w.images[i]) || (t.call)() != t.orig {
                 // restoration is C02's property: the other monitors cannot work on a corrupted pool and say so
                 let v = if mons.c02 { Verdict::Violated } else { Verdict::Inconclusive };
                 out::outcome(warm_idx, "warmup/each-target-once", v, "warmup:single-install-not-restored", &J::new().s("target", &t.name));
@@ -347,6 +347,40 @@ pub fn run(ctx: &Ctx) {
                     }
                 }
                 calls2.fetch_add(nb.len() as u64, Ordering::Relaxed);
+            }
+        }))
+    } else {
+        None
+    };
+    // (C12) another thread keeps mapping, using and unmapping ordinary memory right where the library looks for
+    // trampoline pages first (hints only, never MAP_FIXED): its pages are its own - never replaced, never unmapped
+    // by anybody else - however the two threads interleave
+    let map_rounds = std::sync::Arc::new(std::sync::atomic::AtomicU64::new(0));
+    let map_bad = std::sync::Arc::new(std::sync::atomic::AtomicU64::new(0));
+    let mapper = if mons.c12 && !mons.c03 && ctx.get_u("nosynth", 0) == 0 && ctx.get_u("mapper", 1) == 1 {
+        let first = (w.pool.synth.arena.base.saturating_sub(0x800_0000)) & !(PAGE - 1);
+        let (stop2, rounds2, bad2) = (stop.clone(), map_rounds.clone(), map_bad.clone());
+        Some(std::thread::spawn(move || {
+            let mut k = 0usize;
+            while !stop2.load(Ordering::Relaxed) {
+                k += 1;
+                let hint = first + (k % 6) * PAGE;
+                let p = unsafe { libc::syscall(libc::SYS_mmap, hint, PAGE, libc::PROT_READ | libc::PROT_WRITE, libc::MAP_PRIVATE | libc::MAP_ANONYMOUS, -1i64, 0i64) } as isize;
+                if p <= 0 {
+                    continue;
+                }
+                let p = p as usize;
+                let pat = 0xA5A5_0000_0000_0000u64 | k as u64;
+                unsafe { std::ptr::write_volatile(p as *mut u64, pat) };
+                for _ in 0..(k % 200) {
+                    std::hint::spin_loop();
+                }
+                let ok = maps::read_vec(p, 8).map(|b| u64::from_le_bytes(b[..8].try_into().unwrap()) == pat).unwrap_or(false);
+                if !ok {
+                    bad2.fetch_add(1, Ordering::SeqCst);
+                }
+                unsafe { libc::syscall(libc::SYS_munmap, p, PAGE) };
+                rounds2.fetch_add(1, Ordering::Relaxed);
             }
         }))
     } else {
@@ -443,7 +477,13 @@ pub fn run(ctx: &Ctx) {
     if let Some(h) = spinner {
         let _ = h.join();
     }
-    let mut sj = summary_json(&w, decided).n("synthetic_targets_regenerated_in_place", regenerated).n("neighbour_calls_by_the_background_thread", spin_calls.load(Ordering::SeqCst));
+    if let Some(h) = mapper {
+        let _ = h.join();
+    }
+    if map_bad.load(Ordering::SeqCst) > 0 {
+        out::outcome(2_000_000_100 + ctx.shard, "background-thread/foreign-mappings-in-the-search-window", Verdict::Violated, "c12:foreign-mapping-replaced-or-unmapped-while-its-owner-was-using-it", &J::new().n("bad_rounds", map_bad.load(Ordering::SeqCst)).n("rounds", map_rounds.load(Ordering::SeqCst)));
+    }
+    let mut sj = summary_json(&w, decided).n("synthetic_targets_regenerated_in_place", regenerated).n("neighbour_calls_by_the_background_thread", spin_calls.load(Ordering::SeqCst)).n("map_use_unmap_rounds_by_the_background_thread_in_the_search_window", map_rounds.load(Ordering::SeqCst));
     if spin_bad.load(Ordering::SeqCst) > 0 {
         out::outcome(2_000_000_000 + ctx.shard, "background-thread/neighbours", Verdict::Violated, "c03:neighbour-function-changed-behaviour-on-another-thread", &J::new().n("bad_calls", spin_bad.load(Ordering::SeqCst)));
         sj = sj.n("background_thread_bad_calls", spin_bad.load(Ordering::SeqCst));
@@ -630,7 +670,7 @@ fn lifetime(w: &mut World, mons: &Mons, p: &Plan, rng: &mut Rng) -> (Verdict, St
                             *viol = Some(("c02:history-unusable:mismatching-installation-accepted".into(), J::new().s("target", &rt.name)));
                         } else if mons.c12 && ip::ledger_len() != led0 {
                             *viol = Some(("c12:refused-installation-kept-a-mapping".into(), J::new().s("target", &rt.name).n("ledger_before", led0).n("ledger_after", ip::ledger_len())));
-                        } else if (mons.c02 || mons.c03) && img(rt.addr) != img0 {
+                        } else if (mons.c02 || mons.c03) && img_differs(rt.addr, &img0) {
                             *viol = Some((if mons.c02 { "c02:refused-installation-changed-the-function" } else { "c03:refused-installation-changed-bytes" }.into(), J::new().s("target", &rt.name)));
                         }
                     }
@@ -858,7 +898,7 @@ fn lifetime(w: &mut World, mons: &Mons, p: &Plan, rng: &mut Rng) -> (Verdict, St
     // ---------------- after scope exit
     if mons.c02 {
         for (i, t) in w.pool.targets.iter().enumerate() {
-            let now = img(t.addr);
+            let now = bytes_at(t.addr, w.images[i].len());
             if now != w.images[i] {
                 let reps = per.get(&i).cloned().unwrap_or(0);
                 let d = detail.s("target", &t.name).s("bytes_now", &out::hex(&now[..now.len().min(16)])).s("bytes_before", &out::hex(&w.images[i][..w.images[i].len().min(16)])).n("times_installed_in_this_lifetime", reps);
